@@ -585,9 +585,9 @@ def trExpr (T : Tables) (P : Prog) : Nat → List (String × GVal) → Syms → 
         match P.find g with
         | none => .error (.refused "py_fn is None")
         | some d => fnToSympy T P f d (some sargs)
-    | .callKw func args =>
-      -- `_handle_call` reads `node.args` only: keyword arguments are ignored
-      trExpr T P f G ctx (.call func args)
+    | .callKw _ _ =>
+      -- after the repair of F-C06-9 `_handle_call` refuses calls that pass keyword arguments
+      .error (.refused "NotImplementedError: keyword arguments")
     | .unsupported => .error (.refused "NotImplementedError: expression type")
 
 def trArgs (T : Tables) (P : Prog) : Nat → List (String × GVal) → Syms → List PyExpr → TR (List SExpr)
